@@ -129,6 +129,9 @@ def run_property(pid, tier, seed):
                     results[ob['id']] = res
                 # counterexamples for failures
                 failed = [(u, ob) for u, ob in lst if results[ob['id']]['status'] == 'failed']
+                # concrete playback runs serially (Kani: incompatible with -j): fetch counterexamples for the cheapest few
+                failed.sort(key=lambda t: (solver_time.get(t[1]['id']) or 1e9))
+                failed = failed[:3]
                 if failed:
                     pb, pout = sess.playback(crate, [ob['harness'] for _, ob in failed],
                                              max(ob.get('timeout', 120) for _, ob in failed))
